@@ -170,6 +170,37 @@ def seedEdit (h : Heap ELE) (next : Ref) (seed : Ref) : Heap ELE × Ref :=
 def seedEditLegacy (h : Heap ELE) (_next : Ref) (seed : Ref) : Heap ELE × Ref :=
   (h.set seed { h seed with direction := 0, occupant := none }, seed)
 
+/-- a read mask over the three fields the model keeps -/
+structure EMask where
+  d : Bool
+  o : Bool
+  t : Bool
+  deriving DecidableEq, Repr
+
+/-- `ResponseFilter` with that mask, applied to a clone -/
+def projELE (m : EMask) (e : ELE) : ELE :=
+  { direction := if m.d then e.direction else 0, occupant := if m.o then e.occupant else none,
+    enterTotal := if m.t then e.enterTotal else 0 }
+
+/-- the seed `resource.Value.Pull` hands the adapter, whatever other read options were given (backpressure, updates-only
+false, …): WITHOUT a read mask the stored message itself, with one a filtered clone (a new cell).
+Returns the heap, the allocation pointer and the seed's reference. -/
+def pullSeedRef (mask : Option EMask) (h : Heap ELE) (next stored : Ref) : Heap ELE × Ref × Ref :=
+  match mask with
+  | none => (h, next, stored)
+  | some m => (h.set next (projELE m (h stored)), next + 1, next)
+
+/-- `Model.PullEnterLeaveEvents(ctx, opts...)` up to the first message sent: the resource's seed, then the adapter's edit -/
+def pullFirst (mask : Option EMask) (h : Heap ELE) (next stored : Ref) : Heap ELE × Ref :=
+  let s := pullSeedRef mask h next stored
+  seedEdit s.1 s.2.1 s.2.2
+
+/-- the seeded shape (C07-11): the adapter clones "only without read options" — `len(opts) == 0` standing in for "no read
+mask was given" -/
+def pullFirstIfNoOpts (noOpts : Bool) (mask : Option EMask) (h : Heap ELE) (next stored : Ref) : Heap ELE × Ref :=
+  let s := pullSeedRef mask h next stored
+  if noOpts then seedEdit s.1 s.2.1 s.2.2 else seedEditLegacy s.1 s.2.1 s.2.2
+
 /-! ### driver ops (K2 tie of traitUnion / traitRemove with the real functions) -/
 
 def parseNames (s : String) : List String := if s = "-" then [] else s.splitOn ","
@@ -220,6 +251,20 @@ def handleSeed (d o t : String) (legacy : Bool) : String :=
     sh (r.1 r.2) ++ "|" ++ sh (r.1 0)
   | _, _ => "!bad-op"
 
+/-- `rim seedp <direction> <occupant|-> <enter total> <mask>` → `sent|stored afterwards`; mask = `-` (none), `0` (empty) or
+letters of `dot` (direction, occupant, enter_total) -/
+def handleSeedP (d o t mask : String) : String :=
+  match d.toNat?, t.toNat? with
+  | some d, some t =>
+    let ev : ELE := { direction := d, occupant := if o = "-" then none else some o, enterTotal := t }
+    let h0 : Heap ELE := fun _ => ev
+    let m : Option EMask := if mask = "-" then none else
+      some { d := mask.contains 'd', o := mask.contains 'o', t := mask.contains 't' }
+    let r := pullFirst m h0 1 0
+    let sh := fun (e : ELE) => s!"{e.direction},{e.occupant.getD "-"},{e.enterTotal}"
+    sh (r.1 r.2) ++ "|" ++ sh (r.1 0)
+  | _, _ => "!bad-op"
+
 /-- `rim union|remove <has names> <extra capacity> <names>`: answers `result|array-of-has-after`
 where the second part is the caller's backing array seen through its full capacity (nil slots `_`). -/
 def handleRim (toks : List String) : String :=
@@ -228,6 +273,7 @@ def handleRim (toks : List String) : String :=
   | ["merge-legacy", old, upd] => handleMerge old upd true
   | ["seed", d, o, t] => handleSeed d o t false
   | ["seed-legacy", d, o, t] => handleSeed d o t true
+  | ["seedp", d, o, t, mask] => handleSeedP d o t mask
   | [op, has, extra, names] =>
     match extra.toNat? with
     | none => "!bad-op"
